@@ -459,6 +459,11 @@ func (s *AbsfsNFS) WriteWithContext(ctx context.Context, node *NFSNode, offset i
 		data = data[:tuning.TransferSize]
 	}
 
+	// Refuse writes that would extend the file past MaxFileSize (0 = unlimited)
+	if policy.MaxFileSize > 0 && offset > policy.MaxFileSize-int64(len(data)) {
+		return 0, syscall.EFBIG
+	}
+
 	// Standard write path
 	f, err := s.fs.OpenFile(node.path, os.O_WRONLY, 0)
 	if err != nil {
